@@ -74,6 +74,9 @@ pub struct ItemsCase {
     /// spelling of the annotation path per item (0 bare, 1 typeshare::typeshare, 2 ::typeshare::typeshare)
     pub paths: Vec<usize>,
     pub lang: Lang,
+    /// the configuration maps the first item's own Rust name to something else: that governs references to the name,
+    /// not whether the annotated item is generated
+    pub name_is_a_mapping_key: bool,
 }
 
 pub fn gen_items(ch: &mut Chooser, max_items: usize) -> ItemsCase {
@@ -93,7 +96,8 @@ pub fn gen_items(ch: &mut Chooser, max_items: usize) -> ItemsCase {
         });
     }
     let lang = *ch.pick("lang", &ALL_LANGS);
-    ItemsCase { items, paths, lang }
+    let name_is_a_mapping_key = ch.flag("first_item_name_is_a_type_mapping_key");
+    ItemsCase { items, paths, lang, name_is_a_mapping_key }
 }
 
 pub fn items_program(c: &ItemsCase) -> File {
@@ -110,7 +114,11 @@ pub fn items_program(c: &ItemsCase) -> File {
 
 pub fn check_items(c: &ItemsCase, choices: &[u32], acc: &mut Acc) {
     let file = items_program(c);
-    let cfg = Cfg::plain();
+    let mut cfg = Cfg::plain();
+    if c.name_is_a_mapping_key {
+        cfg.type_mappings.push(("Item0".into(), "MappedElsewhere".into()));
+        cfg.type_mappings.push(("ITEM0".into(), "MappedElsewhere".into()));
+    }
     let any_annotated = c.items.iter().any(|i| i.1);
     let annotated_const = c.items.iter().any(|i| i.1 && i.0 == "const");
     acc.runs += 1;
